@@ -234,6 +234,13 @@ def scenarios(masks: dict, thorough: bool) -> list[tuple[str, dict, str, list[di
                 continue
             spec = {**tspec, "r": (m1, shape), "x": (m2, ("ref", "y")), "y": (m3, ("seq", ("leaf", "b"), ("leaf", "c")))}
             out.append((f"{tname}; r = {sym[m1]}{{ {sname} }}, x = {sym[m2]}{{ y }}, y = {sym[m3]}{{ b ~ c }}", spec, "r", scripts[:1]))
+    # trivia rules are atomic by name, whatever the table contains: a sequence or a rule call inside a trivia body
+    # must not match trivia itself - in tables WITHOUT any @ / $ rule too
+    for body_name, tbody, extra in (("w1 ~ w2", ("seq", ("leaf", "w"), ("leaf", "v")), {}), ("n", ("ref", "n"), {"n": (0, ("seq", ("leaf", "w"), ("leaf", "v")))})):
+        for tname2 in ("WHITESPACE", "COMMENT"):
+            for tmod in (S, 0):
+                spec = {tname2: (tmod, tbody), **extra, "r": (0, ("seq", ("leaf", "a"), ("leaf", "b")))}
+                out.append((f"{tname2} = {sym[tmod]}{{ {body_name} }} in a table without atomic rules; r = {{ a ~ b }}", spec, "r", [{"w": ["S1", "S1", "Fc", "Fc", "Fc"], "v": ["S1", "S1", "Fc", "Fc"]}]))
     # trivia with a stack effect around repetitions and sequences
     for body_name, body in (("a* ~ b", ("seq", ("rep", ("leaf", "a")), ("leaf", "b"))), ("(a ~ b)*", ("rep", ("seq", ("leaf", "a"), ("leaf", "b")))), ("a? ~ b", ("seq", ("opt", ("leaf", "a")), ("leaf", "b")))):
         for wscript in (["S1p", "Fc", "S1p", "Fc", "S1p", "Fc", "Fc"], ["S1", "Fc", "S1", "Fc", "Fc", "Fc"]):
